@@ -26,7 +26,8 @@ AXES_QUICK = [("ms", 2, 2, 4), ("s", -3, 1, 3), ("ps", 0, 6, 5), ("us", 5, 4, 1)
               ("D", -2, 1, 5), ("ps", 2 ** 40 + 1, 2 ** 33 + 1, 3)]
 AXES_THOROUGH = AXES_QUICK + [("ns", 7, 2, 8), ("h", -1, 1, 7)]
 # the same axis reached through other paths: every one must start (and stay) as consistent as the constructed one
-DERIVE = ["plus0", "copycopy", "npcopy", "view", "fullslice", "series_time", "positional", "from_duration", "from_axis"]
+DERIVE = ["plus0", "copycopy", "npcopy", "view", "fullslice", "series_time", "positional", "from_duration", "from_axis",
+          "copy_of_copy"]
 
 
 def err_name(e):
@@ -177,6 +178,15 @@ def apply_op(ts, u, op, axis):
 
 
 def observe(u):
+    try:
+        return observe0(u)
+    except Exception as e:  # noqa  (an axis that lost an attribute, e.g. on a derived object)
+        return {"s": [int(x) for x in np.asarray(u)], "t0": 0, "dt": 0, "dur": 0, "rate": (0.0).hex(), "look": [],
+                "cls": type(u).__name__, "unit": getattr(u, "time_unit", None),
+                "broken": "%s: %s" % (type(e).__name__, str(e)[:100])}
+
+
+def observe0(u):
     s = [int(x) for x in np.asarray(u)]
     look = []
     for i in range(len(s)):
@@ -212,6 +222,8 @@ def fresh(ts, axis):
         return u.view()
     if how == "fullslice":
         return u[:]
+    if how == "copy_of_copy":
+        return copy.copy(u.copy())
     if how == "from_axis":
         return ts.UniformTime(u)
     raise KeyError(how)
@@ -250,6 +262,8 @@ def op_coq(op, axis):
 
 
 def obs_coq(o, exc):
+    if o.get("broken"):
+        exc = "AttributeErr"        # cannot agree with the model: the correspondence lemma breaks on this node
     look = llit(["(Ok %s)" % zlit(x) if isinstance(x, int) else "(Err %s)" % x for x in o["look"]])
     return "(mk_obs %s %s %s %s %s %s %s)" % (
         zlist(o["s"]), zlit(o["t0"]), zlit(o["dt"]), zlit(o["dur"]), flit(float.fromhex(o["rate"])),
@@ -348,6 +362,8 @@ def spec_step(a, op, cf):
 def describes(a, o):
     """does the observed state o describe exactly the abstract axis a?  returns a reason or None"""
     t0, dt, n = a
+    if o.get("broken"):
+        return "attributes (%s)" % o["broken"]
     if o["s"] != [t0 + i * dt for i in range(n)]:
         return "samples"
     if o["t0"] != t0:
@@ -394,6 +410,7 @@ def judge(a, prev_obs, node, cf):
                        {"t0": a2[0], "dt": a2[1], "n": a2[2]})
     why = describes(a2, o)
     if why is not None:
+        why = why.split(" ")[0]
         if k == "slice" and why != "samples":
             key = "C17/slice/metadata-inherited"
         else:
@@ -466,8 +483,9 @@ def run(ctx):
             a0 = (axis[1] * cf, axis[2] * cf, axis[3])
             why = describes(a0, init)
             if why is not None:
-                ctx.report_fail(Fail("C17/construct/%s" % why, "fresh axis not self-consistent", init, a0,
-                                     {"axis": list(axis), "ops": []}))
+                ctx.report_fail(Fail("C17/construct/%s/%s" % (axis[4] if len(axis) > 4 else "ctor", why.split(" ")[0]),
+                                     "axis obtained by %s is not self-consistent: %s" % (axis[4] if len(axis) > 4 else "the constructor", why),
+                                     init, a0, {"axis": list(axis), "ops": []}))
             for sch in schemes:
                 t = build(ts, axis, [], [sch], 1, counter)[0]
                 if depth > 1:
